@@ -28,9 +28,22 @@ pub enum ErrKind {
     Eio,
     Eisdir,
     Eintr,
+    Einval,
+    Enotdir,
+    Eloop,
+    Enametoolong,
+    Enomem,
+    Eagain,
+    KInvalidInput,
+    KInvalidData,
+    KOther,
+    KUnexpectedEof,
+    Custom,
 }
 
 impl ErrKind {
+    /// every kind (the later ones are rarer in generated scenarios)
+    pub const ALL: &'static [ErrKind] = &[ErrKind::Enoent, ErrKind::Eacces, ErrKind::Eio, ErrKind::Eisdir, ErrKind::Eintr, ErrKind::Einval, ErrKind::Enotdir, ErrKind::Eloop, ErrKind::Enametoolong, ErrKind::Enomem, ErrKind::Eagain, ErrKind::KInvalidInput, ErrKind::KInvalidData, ErrKind::KOther, ErrKind::KUnexpectedEof, ErrKind::Custom];
     pub fn text(&self) -> &'static str {
         match self {
             ErrKind::Enoent => "enoent",
@@ -38,17 +51,21 @@ impl ErrKind {
             ErrKind::Eio => "eio",
             ErrKind::Eisdir => "eisdir",
             ErrKind::Eintr => "eintr",
+            ErrKind::Einval => "einval",
+            ErrKind::Enotdir => "enotdir",
+            ErrKind::Eloop => "eloop",
+            ErrKind::Enametoolong => "enametoolong",
+            ErrKind::Enomem => "enomem",
+            ErrKind::Eagain => "eagain",
+            ErrKind::KInvalidInput => "kind_invalid_input",
+            ErrKind::KInvalidData => "kind_invalid_data",
+            ErrKind::KOther => "kind_other",
+            ErrKind::KUnexpectedEof => "kind_unexpected_eof",
+            ErrKind::Custom => "custom_error",
         }
     }
     pub fn parse(s: &str) -> Option<Self> {
-        Some(match s {
-            "enoent" => ErrKind::Enoent,
-            "eacces" => ErrKind::Eacces,
-            "eio" => ErrKind::Eio,
-            "eisdir" => ErrKind::Eisdir,
-            "eintr" => ErrKind::Eintr,
-            _ => return None,
-        })
+        ErrKind::ALL.iter().find(|k| k.text() == s).cloned()
     }
 }
 
